@@ -61,6 +61,36 @@ def fs_creates(m):
     return m.calls(lambda names, t: any(n.endswith(FS_CREATE) for n in names if n))
 
 
+def through_helpers(ctx, crate, pred):
+    """predicate on call terminators: the call satisfies `pred` itself, or calls a function of the crate whose own body
+    (transitively) contains such a call — the effect sits in a helper the function was split into"""
+    c = ctx.prog.crates[crate]
+    mirs = {}
+    for p, l in c.mir.items():
+        if '{closure' in p:
+            continue
+        mirs[norm_path(p)] = MirFn(l[0])
+    hit = {p for p, m in mirs.items() if m.calls(pred)}
+    changed = True
+    while changed:
+        changed = False
+        for p, m in mirs.items():
+            if p in hit:
+                continue
+            if m.calls(lambda names, t: any(norm_path(n).split('::<')[0] in hit for n in names if n)):
+                hit.add(p)
+                changed = True
+
+    def wide(names, t):
+        return pred(names, t) or any(norm_path(n).split('::<')[0] in hit for n in names if n)
+    return wide, hit, mirs
+
+
+def is_direct(m, bb, pred):
+    t = m.blocks[bb]['term']
+    return pred([t.get('fn') or '', t.get('resolved') or ''], t)
+
+
 def dominated_by_success(m, call_bb, targets, what, rule_id, inst, obs, how='try'):
     """every block of `targets` is dominated by the success successor of the call in call_bb"""
     edges = m.try_edges(call_bb) if how == 'try' else m.bool_edges(call_bb)
@@ -84,10 +114,25 @@ def rule_mir_generate(ctx):
     m = mirfn(ctx, 'cli', 'generate::generate_code')
     if m is None:
         return [bad('MIR-WRITE-AFTER-GEN', 'floor', 'anchor-missing: MIR of generate::generate_code not found')]
-    writes = fs_creates(m)
-    gens = m.calls_named('graphql_client_codegen::generate_module_token_stream')
+    p_create = lambda names, t: any(n.endswith(FS_CREATE) for n in names if n)
+    p_gen = lambda names, t: any(n.endswith('graphql_client_codegen::generate_module_token_stream') for n in names if n)
+    w_create, _h1, mirs = through_helpers(ctx, 'cli', p_create)
+    w_gen, _h2, _m2 = through_helpers(ctx, 'cli', p_gen)
+    # the function may have been split: both effects are looked for through its helpers; if one helper contains both,
+    # the question is asked inside that helper
+    for _level in range(4):
+        writes = m.calls(w_create)
+        gens = m.calls(w_gen)
+        if writes and gens and set(writes) == set(gens) and len(writes) == 1:
+            t_ = m.blocks[writes[0]]['term']
+            inner = [mirs.get(norm_path(n).split('::<')[0]) for n in (t_.get('fn') or '', t_.get('resolved') or '') if n]
+            inner = [x for x in inner if x is not None]
+            if inner:
+                m = inner[0]
+                continue
+        break
     if not writes or not gens:
-        return [bad('MIR-WRITE-AFTER-GEN', 'floor', 'anchor-missing: %d file creations, %d library calls in the MIR of generate_code' % (len(writes), len(gens)))]
+        return [bad('MIR-WRITE-AFTER-GEN', 'floor', 'anchor-missing: %d file creations, %d library calls in the MIR of generate_code (helpers included)' % (len(writes), len(gens)))]
     dominated_by_success(m, gens[0], writes, 'generate_module_token_stream(..)', 'MIR-WRITE-AFTER-GEN', 'generate/generation', obs)
     # must-pass-through: no path from the entry to a non-error return avoids the file creation
     errs = m.error_blocks()
@@ -129,17 +174,26 @@ def rule_mir_introspect(ctx):
     m = mirfn(ctx, 'cli', 'introspection_schema::introspect_schema')
     if m is None:
         return [bad('MIR-WRITE-AFTER-OK', 'floor', 'anchor-missing: MIR of introspect_schema not found')]
-    creates = fs_creates(m)
-    writers = m.calls(lambda names, t: any('serde_json' in n and n.split('<')[0].endswith(('to_writer_pretty', 'to_writer')) for n in names if n))
-    effects = creates + writers
-    sends = m.calls_named('RequestBuilder::send')
-    succ = m.calls(lambda names, t: any(n.endswith('StatusCode::is_success') for n in names if n))
-    jsons = m.calls(lambda names, t: any(n.split('<')[0].endswith('Response::json') or n.endswith('Response::json') for n in names if n))
+    p_create = lambda names, t: any(n.endswith(FS_CREATE) for n in names if n)
+    p_writer = lambda names, t: any('serde_json' in n and n.split('<')[0].endswith(('to_writer_pretty', 'to_writer')) for n in names if n)
+    p_send = lambda names, t: any(n.endswith('RequestBuilder::send') for n in names if n)
+    p_succ = lambda names, t: any(n.endswith('StatusCode::is_success') for n in names if n)
+    p_json = lambda names, t: any(n.split('<')[0].endswith('Response::json') or n.endswith('Response::json') for n in names if n)
+    wide = {k: through_helpers(ctx, 'cli', p)[0] for k, p in (('create', p_create), ('writer', p_writer), ('send', p_send), ('succ', p_succ), ('json', p_json))}
+    creates = m.calls(wide['create'])
+    writers = m.calls(wide['writer'])
+    effects = sorted(set(creates + writers))
+    sends = m.calls(wide['send'])
+    succ = m.calls(wide['succ'])
+    jsons = m.calls(wide['json'])
     if not effects or not sends or not succ or not jsons:
-        return [bad('MIR-WRITE-AFTER-OK', 'floor', 'anchor-missing: effects=%d send=%d is_success=%d json=%d in the MIR of introspect_schema' % (len(effects), len(sends), len(succ), len(jsons)))]
-    dominated_by_success(m, sends[0], effects, 'send()', 'MIR-WRITE-AFTER-OK', 'introspect/send', obs)
-    dominated_by_success(m, succ[0], effects, 'status().is_success()', 'MIR-WRITE-AFTER-OK', 'introspect/status', obs, how='bool')
-    dominated_by_success(m, jsons[0], effects, 'response.json()', 'MIR-WRITE-AFTER-OK', 'introspect/json', obs)
+        return [bad('MIR-WRITE-AFTER-OK', 'floor', 'anchor-missing: effects=%d send=%d is_success=%d json=%d in the MIR of introspect_schema (helpers included)' % (len(effects), len(sends), len(succ), len(jsons)))]
+    # a guard that lives in a helper (`ensure_success(&res)?`) is consumed by `?` at its call site
+    eff = lambda b: [x for x in effects if x != b]
+    dominated_by_success(m, sends[0], eff(sends[0]), 'send()', 'MIR-WRITE-AFTER-OK', 'introspect/send', obs)
+    dominated_by_success(m, succ[0], eff(succ[0]), 'status().is_success()', 'MIR-WRITE-AFTER-OK', 'introspect/status', obs,
+                         how='bool' if is_direct(m, succ[0], p_succ) else 'try')
+    dominated_by_success(m, jsons[0], eff(jsons[0]), 'response.json()', 'MIR-WRITE-AFTER-OK', 'introspect/json', obs)
     return obs
 
 
@@ -225,7 +279,17 @@ def rule_mir_visited(ctx):
     from .rules_hir import callgraph, walk
     cg = callgraph(ctx)
     targets = {}
+    members = {}
     for comp in cg.sccs():
+        comp_suffixes = set()
+        for key in comp:
+            f = ctx.fn_by_key(key)
+            if f is not None:
+                comp_suffixes.add(norm_path(f.path).split('graphql_client_codegen::', 1)[-1])
+        for key in sorted(comp):
+            f = ctx.fn_by_key(key)
+            if f is not None:
+                members[norm_path(f.path).split('graphql_client_codegen::', 1)[-1]] = comp_suffixes
         for key in sorted(comp):
             f = ctx.fn_by_key(key)
             if f is None or f.from_macro or not key.startswith('codegen::'):
@@ -244,7 +308,9 @@ def rule_mir_visited(ctx):
             continue
         parent = [m for p, m in items if '{closure' not in p]
         parent = parent[0] if parent else None
-        is_rec = lambda names, t: any(norm_path(n).endswith(suffix) for n in names if n)
+        # a recursive call = a call of any function of the same call-graph component (mutual recursion through helpers)
+        comp_sfx = tuple(sorted(members.get(suffix, {suffix})))
+        is_rec = lambda names, t, comp_sfx=comp_sfx: any(norm_path(n).split('::{closure')[0].endswith(comp_sfx) for n in names if n)
         is_test = lambda names, t: any(n.split('::')[-1] in ('contains', 'insert') and ('BTreeSet' in n or 'HashSet' in n) for n in names if n)
         # sites: (body, block) of every recursive call; a call inside a closure is represented by the block of the
         # parent body that builds that closure (the closure runs only if that block is reached)
@@ -291,7 +357,13 @@ def rule_mir_visited(ctx):
                 obs.append(bad('MIR-VISITED', inst, 'the recursive call sits on the ALREADY-visited edge of the visited-set test at %s' % m.sp(guarded[0]), sp,
                                'cycles in the %s are followed forever and fresh nodes are skipped' % pool))
             # a descent no test dominates is left to REC-GUARD (it may be structural: sub-selection of a field)
-        if n_target_ok == 0 and not any(o.status == 'violated' and o.instance.startswith(suffix.split('::')[-1] + '#') for o in obs):
+        if n_target_ok == 0 and sites and not any(o.status == 'violated' and o.instance.startswith(suffix.split('::')[-1] + '#') for o in obs):
+            # the pool edge and the structural descents share one call site (`let next = match s {..}; for x in next { rec(x) }`):
+            # on the CFG the test cannot dominate that block although every pool edge passes it.  Dominance cannot decide
+            # this shape; REC-GUARD / VISITED-DISCIPLINE decide it on the HIR in both tiers.
+            obs.append(undecided('MIR-VISITED', suffix.split('::')[-1] + '/guarded', 'no recursive call site of %s is dominated by the not-yet-visited edge of its visited-set test (%d sites, merged control flow): left to the HIR rules' % (suffix.split('::')[-1], len(sites)),
+                                 sites[0][2]))
+        elif n_target_ok == 0 and not any(o.status == 'violated' and o.instance.startswith(suffix.split('::')[-1] + '#') for o in obs):
             obs.append(bad('MIR-VISITED', suffix.split('::')[-1] + '/guarded', 'no recursive descent of %s is dominated by the not-yet-visited edge of a visited-set test (%d recursive call sites)' % (suffix.split('::')[-1], len(sites)),
                            sites[0][2] if sites else '', 'a cycle in the %s recurses until the stack overflows' % pool))
     return obs
